@@ -1229,7 +1229,7 @@ fn sweep_socks(rep: &mut Report, tier: Tier) {
 
 /// One SOCKS5 control connection, played correctly: method selection, optional user/password
 /// sub-negotiation, then the reply to the request with `bnd` as bound address.
-async fn socks_control(mut s: tokio::net::TcpStream, bnd: SocketAddr) -> Option<tokio::net::TcpStream> {
+pub async fn socks_control(mut s: tokio::net::TcpStream, bnd: SocketAddr) -> Option<tokio::net::TcpStream> {
     let _ = s.set_linger(Some(Duration::ZERO));
     let mut buf = vec![];
     let mut stage = 0;
